@@ -81,7 +81,7 @@ theorem emitsAny_leaf (env : Env) (nm : Option Str) (o : Bool) (k : Nat) (u : St
 
 theorem ex_ok : Ok exEnv01 exSchema exElem := by
   simp only [exSchema, exElem, Ok, OkFields, exEnv01, true_and, and_true, Schema.name]
-  refine ⟨by decide, ?_, ?_⟩
+  refine ⟨(by intro h; cases h), (by decide), ?_, ?_⟩
   · intro i hi
     simp only [List.length_cons, List.length_nil] at hi
     have : i = 0 ∨ i = 1 := by omega
@@ -130,5 +130,56 @@ theorem roundtrip_sparse_fails :
     Schema.name, sparseSchema, flatten, flattenNode, resolve, resolveMembers, resolveOne,
     bfsFlat, childItems, kidsFrom, namePath, joinSep, FNode.fl, FNode.cfl, FNode.u, FNode.name,
     FNode.kids, FNode.slots]
+
+end Flatland.Flat.Proofs
+
+namespace Flatland.Flat.Proofs
+open Flatland.Flat Flatland.Flat.Spec
+
+/-! ### non-vacuity for a pruning list (the default `prune_empty = True`) of anonymous scalars -/
+
+theorem valuesNonempty_leaf_of (env : Env) (nm : Option Str) (o : Bool) (k : Nat) (u : Str) (h : u ≠ []) :
+    valuesNonempty env (.leaf nm o k) (.leaf u) := by
+  unfold valuesNonempty
+  rw [flatten_eq_relFlat]
+  have : resolve env (.leaf nm o k) (.leaf u) = .mk nm true true u false [] := by unfold resolve; rfl
+  rw [this, relFlat_leaf _ _ _ _ (Or.inr rfl)]
+  intro p hp
+  simp only [List.map_cons, List.map_nil, List.mem_singleton] at hp
+  subst hp
+  exact h
+
+def exSchema2 : Schema := .list (some "l".toList) false true 1024 (.leaf none false 0)
+def exElem2 : Elem := .list [.leaf "y".toList, .leaf "z".toList]
+
+theorem ex2_ok : Ok exEnv01 exSchema2 exElem2 := by
+  simp only [exSchema2, exElem2, Ok]
+  refine ⟨?_, (by decide), ?_, ?_⟩
+  · intro _ e he
+    simp only [List.mem_cons, List.not_mem_nil, or_false] at he
+    rcases he with rfl | rfl
+    · exact valuesNonempty_leaf_of _ _ _ _ _ (by decide)
+    · exact valuesNonempty_leaf_of _ _ _ _ _ (by decide)
+  · intro i hi
+    simp only [List.length_cons, List.length_nil] at hi
+    have : i = 0 ∨ i = 1 := by omega
+    rcases this with rfl | rfl
+    · rw [natStr_lt 0 (by omega)]; decide
+    · rw [natStr_lt 1 (by omega)]; decide
+  · intro e he
+    simp only [List.mem_cons, List.not_mem_nil, or_false] at he
+    rcases he with rfl | rfl
+    · exact ⟨by simp [Ok, exEnv01], emitsAny_leaf _ _ _ _ _⟩
+    · exact ⟨by simp [Ok, exEnv01], emitsAny_leaf _ _ _ _ _⟩
+
+theorem ex2_sepSafe : SepSafe exEnv01 "_".toList (Tok exSchema2) := by
+  apply sepSafe_single_char exEnv01 exEnvOK exSchema2 '_'
+  · decide
+  · intro t ht
+    simp only [exSchema2, names, Option.toList, List.append_nil, List.mem_singleton] at ht
+    subst ht; decide
+
+example : fromFlat exEnv01 "_".toList exSchema2 (flatten exEnv01 "_".toList exSchema2 exElem2) = exElem2 :=
+  roundtrip exEnv01 "_".toList exSchema2 exElem2 ex2_sepSafe exEnvOK (by decide) (by decide) (by decide) ex2_ok
 
 end Flatland.Flat.Proofs
